@@ -47,7 +47,7 @@ GSpec == GInit /\ [][GNext]_gvars
 CONSTANT MaxOdd
 UIs    == {"none", "user", "userpw", "enc", "crlf", "emptypw"}
 HostFs == {"plain", "upper", "idn", "ip4", "ip6", "ip6long"}
-PortFs == {"none", "default", "other", "padded"}
+PortFs == {"none", "default", "other", "padded", "xdef"}
 PathFs == {"p", "empty", "slash", "space", "crlf", "delims", "uni", "dots", "pct", "bslash", "semi"}
 QueryFs == {"none", "kv", "space", "crlf", "uni", "amp", "qmark", "hashenc"}
 FragFs == {"none", "f", "spacef"}
